@@ -9,6 +9,7 @@ import (
 	"time"
 
 	"pgregory.net/rapid"
+	"verif/backing"
 	"verif/kit"
 	"verif/world"
 )
@@ -22,7 +23,7 @@ func TestMain(m *testing.M) {
 		"virtual clock injected by build overlay; the clock does not move inside a call", "CreateDatePrecision < ExpireKeyAfter (every documented configuration)", "the metastore accepts writes (no faults here; faults are C02)")
 }
 
-var weights = map[string]int{"encrypt": 10, "decrypt": 2, "open": 1, "close": 1, "restart": 1, "advance": 8, "revoke": 0, "rotate": 1, "pressure": 1}
+var weights = map[string]int{"encrypt": 10, "decrypt": 2, "open": 1, "close": 1, "restart": 1, "advance": 8, "revoke": 0, "rotate": 1, "pressure": 1, "oldThenNew": 3, "skExpiresBeforeIK": 2}
 
 func TestWorld(t *testing.T) {
 	kit.Steps(kit.Pick(40, 60))
@@ -37,12 +38,50 @@ type last struct {
 }
 
 func runHistory(t *rapid.T) {
-	w := world.New(t, world.Options{MaxProcs: 2, SmallPayloads: true, NoRetainAEAD: true, HomogeneousTime: true})
+	opts := world.Options{MaxProcs: 2, SmallPayloads: true, NoRetainAEAD: true, HomogeneousTime: true}
+	defer backing.Use(t, &opts, 25)()
+	w := world.New(t, opts)
 	defer w.Teardown()
 	shapes := map[string]bool{}
 	prev := map[string]*last{} // proc/partition -> last record
 	w.OnOp = func(ev *world.Event) { monitor(t, w, ev, shapes, prev) }
-	t.Repeat(kit.Weighted(w.Actions(), weights, nil))
+	acts := w.Actions()
+	// a compound history that random interleaving reaches too rarely: a partition's IK is YOUNGER
+	// than the system key, the system key expires first, the long-lived session rotates as it
+	// must, later decrypts a record of the old IK and encrypts again
+	acts["skExpiresBeforeIK"] = func(t *rapid.T) {
+		p := w.PickProc("proc")
+		pol := p.Policy
+		if len(w.Parts) < 2 {
+			t.Skip("one partition only")
+		}
+		a, b := w.Parts[0], w.Parts[1]
+		sa, fresh := w.SessionFor(p, a, true)
+		w.Encrypt(sa, []byte("brings the SK into existence"), false, fresh)
+		sk := w.Store.Latest(w.SKID())
+		if sk == nil {
+			t.Skip("no system key")
+		}
+		expiresAt := time.Unix(sk.Created, 0).Add(pol.ExpireKeyAfter)
+		left := expiresAt.Sub(time.Unix(0, w.Now()))
+		if left > 2*time.Second {
+			w.Advance(time.Duration(rapid.Int64Range(int64(time.Second), int64(left-time.Second)).Draw(t, "ikLater")))
+		}
+		sb, fresh := w.SessionFor(p, b, true)
+		_, first := w.Encrypt(sb, []byte("under an IK younger than its SK"), false, fresh)
+		if first == nil {
+			return
+		}
+		if left = expiresAt.Sub(time.Unix(0, w.Now())); left > 0 {
+			w.Advance(left + time.Second)
+		}
+		w.Encrypt(sb, []byte("the SK has just expired"), false, false)
+		w.Advance(pol.RevokeCheckInterval + pol.CreateDatePrecision + time.Second)
+		w.Encrypt(sb, []byte("one interval later"), false, false)
+		w.Decrypt(sb, first, false, false)
+		w.Encrypt(sb, []byte("after decrypting a record of the old IK"), false, false)
+	}
+	t.Repeat(kit.Weighted(acts, weights, nil))
 	var ss []string
 	for s := range shapes {
 		ss = append(ss, s)
@@ -116,7 +155,7 @@ func monitor(t *rapid.T, w *world.World, ev *world.Event, shapes map[string]bool
 			bound = 0
 		}
 		if now.After(f.SKExpiredAt.Add(bound)) && w.LaterStampSince(ev, bound, f.IK.Created, f.SK.Created) {
-			if o := w.RefreshedByDecrypt(ev, f.IK.ID, f.IK.Created, now.Add(-pol.RevokeCheckInterval).UnixNano()-1); o != nil && kit.KnownOpen("C04", "decrypt-refresh-hides-parent-expiry") {
+			if o := w.RefreshedByDecrypt(ev, f.IK.ID, f.IK.Created, now.Add(-pol.RevokeCheckInterval).UnixNano()-1); o != nil && !w.NewerKnownToCache(ev, f.IK.ID, f.IK.Created) && kit.KnownOpen("C04", "decrypt-refresh-hides-parent-expiry") {
 				kit.Rec.Known("decrypt-refresh-hides-parent-expiry", "a decrypt that re-reads a stale cached IK renews the cache entry without validating its parent SK, so the next encrypts keep using an IK whose SK has expired")
 			} else {
 				fail(t, w, "rec%d produced at %d names IK created %d whose SK (created %d) expired at %d, more than the revoke-check interval %s ago", ev.Rec.ID, now.Unix(), f.IK.Created, f.SK.Created, f.SKExpiredAt.Unix(), bound)
